@@ -40,6 +40,7 @@ ASSUMPTIONS = []
 
 
 def correspondence(ctx, model_ok):
+    gen.HOSTILE_P = 0.03     # unusual but legal labels: '', '@', 'a@b', mutual prefixes, case pairs
     r = CorrResult()
     r.rule = ('seeded random DAGs over all 19 gate types (n-ary 2-5 operands, constants with 0/2 operands, repeated '
               'operands, dead logic, outputs that are inputs, repeated outputs); per circuit all 4^n assignments '
